@@ -221,7 +221,7 @@ def run(ctx):
     # ------------------------------------------------------------------ write-back of the bulk state (component index)
     r = out_of("bulk.v")
     ft = failed_tags(r["out"])
-    bulk_goals = [s for s in solves if s["result"] == "Ok" and s["spec_kind"] == 0]
+    bulk_goals = [s for s in solves if s.get("bulk_goal")]
     n_w = sum(len(s["comp_after"]) for s in bulk_goals)
     obligations += n_w
     if r["rc"] == 0:
